@@ -29,3 +29,6 @@ let b2s b = if b then "1" else "0"
 let xprem () = let wi = werr_walk (x_inst ()) in print_endline (b2s (wf_stg_b wi.w_graph) ^ " " ^ b2s (winputs_ok_b wi))
 let () = register "klaecpremises" xprem
 let () = register "kmpecpremises" xprem
+(* the same encoders compared with the implementation's LP by the verified checker LinEquiv.milp_equiv_b *)
+let () = register "klaec_eq" (fun () -> let m = encode_klae_cycles (x_inst ()) in equiv_report m)
+let () = register "kmpec_eq" (fun () -> let m = encode_kmpe_cycles (x_inst ()) in equiv_report m)
